@@ -277,7 +277,35 @@ func (w *World) Structural() []structural {
 				if !ok {
 					continue
 				}
+				// sorting or copying into a slice received by value reorders / overwrites the caller's elements
+				if callee := call.Call.StaticCallee(); callee != nil && len(call.Call.Args) > 0 {
+					var target ssa.Value
+					switch qualifiedName(callee) {
+					case "sort.Strings", "sort.Ints", "sort.Float64s", "slices.Sort", "slices.SortFunc", "slices.SortStableFunc", "slices.Reverse":
+						target = call.Call.Args[0]
+					case "sort.Slice", "sort.SliceStable", "sort.Sort", "sort.Stable":
+						target = call.Call.Args[0]
+						if mi, ok := target.(*ssa.MakeInterface); ok {
+							target = mi.X
+						}
+					}
+					if target != nil {
+						if _, isSlice := target.Type().Underlying().(*types.Slice); isSlice {
+							if src := resliceOfForeign(target, declared, true, false); src != "" {
+								offences[pk] = append(offences[pk], fmt.Sprintf("%s sorts %s in place", key, src))
+								offPos[pk] = w.Fset.Position(call.Pos())
+							}
+						}
+					}
+				}
 				bi, ok := call.Call.Value.(*ssa.Builtin)
+				if ok && bi.Name() == "copy" && len(call.Call.Args) > 0 {
+					if src := resliceOfForeign(call.Call.Args[0], declared, true, false); src != "" {
+						offences[pk] = append(offences[pk], fmt.Sprintf("%s copies into %s", key, src))
+						offPos[pk] = w.Fset.Position(call.Pos())
+					}
+					continue
+				}
 				if !ok || bi.Name() != "append" || len(call.Call.Args) == 0 {
 					continue
 				}
@@ -294,14 +322,12 @@ func (w *World) Structural() []structural {
 	}
 	sort.Strings(pks)
 	for _, pk := range pks {
-		var props []string
-		for p := range pkgProps[pk] {
-			props = append(props, p)
-		}
-		sort.Strings(props)
-		if len(props) == 0 {
+		// value semantics is a side condition of every proof that passes slices around: the guard of a package that
+		// serves any property carries all claimed properties (a contract may declare an intended write with `modifies`)
+		if len(pkgProps[pk]) == 0 {
 			continue
 		}
+		props := append([]string{}, allClaimed...)
 		out = append(out, structural{"structural#slices-received-by-value-are-not-written:" + pk, props, len(offences[pk]) == 0,
 			fmt.Sprintf("writes through a slice the caller can see - an element store, or an append to a re-slice (the elements behind the new length are overwritten in place): %v", offences[pk]), offPos[pk]})
 	}
@@ -581,6 +607,8 @@ func (w *World) sortedAfter(li *loopInfo, phi *ssa.Phi) bool {
 	return sorted
 }
 
+var allClaimed = []string{"C02", "C03", "C04", "C05", "C06", "C07", "C08", "C09", "C10", "C11", "C12", "C13", "C14", "C15", "C16", "C18"}
+
 // resliceOfForeign reports (as a description, "" = no) whether v derives from a re-slice s[a:b] of a slice that is
 // visible outside the function: a parameter, a field of a by-value parameter, or memory reached through a pointer.
 func resliceOfForeign(v ssa.Value, declared func(*ssa.Parameter) bool, onlyDirect bool, ptrIsForeign bool) string {
@@ -604,10 +632,18 @@ func resliceOfForeign(v ssa.Value, declared func(*ssa.Parameter) bool, onlyDirec
 			return foreign(x.X, depth+1)
 		case *ssa.UnOp:
 			if x.Op == token.MUL {
-				// a load: from a local variable holding a foreign slice, or through a pointer
-				switch a := x.X.(type) {
+				// a load: from a local variable (possibly the copy of a by-value parameter), from a field or an element
+				// of such a variable, or through a pointer
+				addr := x.X
+				for {
+					if fa, ok := addr.(*ssa.FieldAddr); ok {
+						addr = fa.X
+						continue
+					}
+					break
+				}
+				switch a := addr.(type) {
 				case *ssa.Alloc:
-					// local variable: look at what is stored into it
 					for _, r := range *a.Referrers() {
 						if st, ok := r.(*ssa.Store); ok && st.Addr == a {
 							if d := foreign(st.Val, depth+1); d != "" {
@@ -616,6 +652,8 @@ func resliceOfForeign(v ssa.Value, declared func(*ssa.Parameter) bool, onlyDirec
 						}
 					}
 					return ""
+				case *ssa.IndexAddr:
+					return foreign(a.X, depth+1)
 				default:
 					if ptrIsForeign {
 						return "memory reached through a pointer"
